@@ -131,12 +131,12 @@ impl QueryBuilder for MysqlQueryBuilder {
         match order_expr.nulls {
             None => (),
             Some(NullOrdering::Last) => {
-                self.prepare_simple_expr(&order_expr.expr, sql);
-                write!(sql, " IS NULL ASC, ").unwrap()
+                self.prepare_simple_expr(&order_expr.expr.clone().is_null(), sql);
+                write!(sql, " ASC, ").unwrap()
             }
             Some(NullOrdering::First) => {
-                self.prepare_simple_expr(&order_expr.expr, sql);
-                write!(sql, " IS NULL DESC, ").unwrap()
+                self.prepare_simple_expr(&order_expr.expr.clone().is_null(), sql);
+                write!(sql, " DESC, ").unwrap()
             }
         }
         if !matches!(order_expr.order, Order::Field(_)) {
